@@ -10,9 +10,11 @@
    names it passes to handle_charref (its regular expression), and which exception classes a codec raises on
    a single byte.  The theorem that needs those hypotheses is named ..._partial. *)
 From Coq Require Import List NArith ZArith Bool Arith String.
+From BS Require Import Model.Dammit Model.Codecs Model.Adapter Model.TokParse Model.Tokenizer Proofs.TokenizerCompose.
 From BS Require Import Base.Sexp Base.Types Base.Lit Model.Heap Model.Edit Model.Build Model.Construct
                        Model.EditOps Spec.Tree Gen.Tables Gen.T_C06 Proofs.EditRep Proofs.ConstructProofs Proofs.RetryClean
-                       Proofs.FullyBuilt Proofs.ConstructCompose.
+                       Proofs.FullyBuilt Proofs.ConstructCompose Model.ConstructStr Proofs.ConstructStrProofs
+                       Model.ConstructBytes Proofs.ConstructAdapterBridge Proofs.ConstructBytesProofs.
 Import ListNotations.
 Open Scope N_scope.
 
@@ -157,6 +159,108 @@ Theorem C06_htmlparser_returns_tree_iff : forall cfg b0 m d orig cbs fin,
    exists evs, hp_attempt cfg orig cbs fin = Accept evs).
 Proof. exact htmlparser_returns_tree_iff. Qed.
 Print Assumptions C06_htmlparser_returns_tree_iff.
+
+(* ================================================================== the constructor on a str, nothing recorded
+   [construct_str cfg b0 unesc text] (Model/ConstructStr.v) = BeautifulSoup(text, "html.parser") for a str: the
+   tokenizer model of Model/Tokenizer.v (the installed html.parser, proved total for every text in C18) supplies the
+   callbacks and the way the run ends; the adapter, feed()'s exception mapping, prepare_markup and the retry loop are
+   this property's model.  [unesc : str -> option str] is html.unescape on attribute values, None = it raised
+   ValueError (Model/UnescapeLimit.v says when: a decimal reference longer than int() accepts); the statements hold
+   for EVERY such function, every text (any code points: lone surrogates, NULs, references of any length), every
+   builder configuration and every prior state of the object.  Trusted, tied by correspondence (C18's tokenizer
+   runs and this property's string-level runs): that the tokenizer model is the standard library's tokenizer. *)
+
+(* a tree or ParserRejectedMarkup, never anything else *)
+Theorem C06_str_input_total : forall cfg b0 unesc text, cres_ok (fst (construct_str cfg b0 unesc text)).
+Proof. exact str_input_total. Qed.
+Print Assumptions C06_str_input_total.
+
+(* not refused: the object returned is, on every observable, Model.Build.feed on the events the adapter derives from
+   the tokenizer's callbacks; it is a consistent forest (C01) and fully built *)
+Theorem C06_str_accepted : forall cfg b0 unesc text, str_rejects unesc text = false ->
+  exists s ws, construct_str cfg b0 unesc text = (CSoup s, ws) /\
+    same_object (so_b s) (feed cfg (str_events cfg unesc text)) /\
+    consistent (b_st (so_b s)) /\
+    b_stack (so_b s) = [0%nat] /\ b_cur (so_b s) = Some 0%nat /\ b_data (so_b s) = [].
+Proof. exact str_accepted. Qed.
+Print Assumptions C06_str_accepted.
+
+(* ParserRejectedMarkup is raised exactly when the parser refuses the text: html.parser's AssertionError, or
+   html.unescape's ValueError on an attribute value ... *)
+Theorem C06_str_rejected_iff : forall cfg b0 unesc text,
+  (exists msgs, fst (construct_str cfg b0 unesc text) = CRaise (ParserRejected msgs)) <-> str_rejects unesc text = true.
+Proof. exact str_rejected_iff. Qed.
+Print Assumptions C06_str_rejected_iff.
+
+(* ... and a refusal that is not html.unescape's needs the opening of a marked section, "<![", in the text *)
+Theorem C06_str_rejected_cause : forall unesc text, str_rejects unesc text = true -> str_unescape_failed unesc text = false ->
+  exists pre post, text = pre ++ 60 :: 33 :: 91 :: post.
+Proof. exact str_rejected_cause. Qed.
+Print Assumptions C06_str_rejected_cause.
+
+(* the link between the two models: every numeric-reference name the tokenizer fires (C18: it is in int()'s grammar)
+   is converted by handle_charref without an exception, whatever its length and whatever the document's codec does on
+   single bytes as long as it raises only what the handler names *)
+Theorem C06_str_callbacks_return : forall orig unesc text, decoder_caught orig ->
+  Forall (cb_returns orig) (str_callbacks unesc text).
+Proof. exact str_callbacks_return. Qed.
+Print Assumptions C06_str_callbacks_return.
+
+(* the tokenizer's callback type and this model's are converted by [cb_of_tev]; on what the tokenizer fires, this
+   model's handle_charref and Model/Adapter.v's (C04 / C18) produce the same text ... *)
+Theorem C06_charref_models_agree : forall name v, Adapter.charref_value name = Some v ->
+  Construct.charref_data None name = Done (Adapter.charref_data None v).
+Proof. exact charref_models_agree. Qed.
+Print Assumptions C06_charref_models_agree.
+
+(* ... and the two adapters make the same calls on the tree builder, attributes aside: the string-level constructor
+   of this property builds the tree of Model.TokParse.parse_string (C04, C18) *)
+Theorem C06_str_events_are_adapter_events : forall cfg unesc text, a_orig cfg = None ->
+  str_unescape_failed unesc text = false ->
+  exists o ac, adapter_run cfg [] (callbacks (marking unesc) text) = (o, ac, true) /\
+               map strip (str_events (a_b cfg) unesc text) = strips o.
+Proof. exact str_events_are_adapter_events. Qed.
+Print Assumptions C06_str_events_are_adapter_events.
+
+(* ------------------------------------------------------------------ text produced by prepare_markup; bytes
+   [construct_text]: the same pipeline for a text prepare_markup produced from any input, numeric references below
+   256 read through the single-byte decoder [orig] of the detected encoding. *)
+Theorem C06_text_input_total : forall cfg b0 m d orig unesc text, decoder_caught orig ->
+  cres_ok (fst (construct_text cfg b0 m d orig unesc text)).
+Proof. exact text_input_total. Qed.
+Print Assumptions C06_text_input_total.
+
+(* PARTIAL: bytes input whose detection stays within the concrete codecs of Model/Codecs.v (ascii, latin-1,
+   windows-1252, utf-8, utf-16/32; chardet absent; any other codec name counts as unknown) — C07's fully concrete
+   prepare_markup, then the pipeline above: for every byte string and every from_encoding / exclude_encodings, a tree or
+   ParserRejectedMarkup.  Outside the statement: the codecs Python knows beyond those eight (measured by the harness). *)
+Theorem C06_bytes_input_total_partial : forall cfg b0 unesc b from_encoding exclude,
+  cres_ok (fst (construct_bytes cfg b0 unesc b from_encoding exclude)).
+Proof. exact bytes_input_total. Qed.
+Print Assumptions C06_bytes_input_total_partial.
+
+Theorem C06_bytes_undecodable_rejected_partial : forall cfg b0 unesc b from_encoding exclude,
+  c_prepare_markup (Dammit.MBytes b) from_encoding exclude = Dammit.Rejected ->
+  fst (construct_bytes cfg b0 unesc b from_encoding exclude) = CRaise (ParserRejected [could_not_convert]).
+Proof. exact bytes_undecodable_rejected. Qed.
+Print Assumptions C06_bytes_undecodable_rejected_partial.
+
+Theorem C06_bytes_returned_tree_partial : forall cfg b0 unesc b from_encoding exclude s,
+  fst (construct_bytes cfg b0 unesc b from_encoding exclude) = CSoup s ->
+  exists text orig decl flag,
+    c_prepare_markup (Dammit.MBytes b) from_encoding exclude = Prepared text orig decl flag /\
+    so_meta s = mkmeta orig decl flag /\ str_rejects unesc text = false /\
+    same_object (so_b s) (feed cfg (text_events cfg (option_map decoder_of orig) unesc text)) /\
+    consistent (b_st (so_b s)) /\
+    b_stack (so_b s) = [0%nat] /\ b_cur (so_b s) = Some 0%nat /\ b_data (so_b s) = [].
+Proof. exact bytes_returned_tree. Qed.
+Print Assumptions C06_bytes_returned_tree_partial.
+
+Example C06_str_examples :
+  let u := fun v : str => Some v in
+  str_rejects u (lit "<p>a&#65;</p>") = false /\ str_rejects u (lit "<![x]>") = true /\
+  str_rejects (fun _ => None) (lit "<a b=c>") = true /\ str_unescape_failed (fun _ => None) (lit "<a b=c>") = true.
+Proof. vm_compute. repeat split; reflexivity. Qed.
 
 (* ================================================================== numeric character references *)
 
